@@ -135,6 +135,10 @@ fn c05_clone_resume(c: &mut Ctx, r: &mut Rng, fam: Fam, b: &[u8], base: &(R0, us
         return;
     }
     let at = r.below(npend as u64) as usize;
+    c05_clone_resume_at(c, fam, b, base, sched, at);
+}
+
+fn c05_clone_resume_at(c: &mut Ctx, fam: Fam, b: &[u8], base: &(R0, usize), sched: &[Step], at: usize) {
     c.eval();
     let budget = b.len() * 2 + sched.len() * 2 + 16;
     match guard(|| drive_poll_clone_resume(fam, b, sched, at, budget)) {
@@ -305,6 +309,11 @@ pub fn c05(ctx: &mut Ctx, layer: &str) {
                 for_all_schedules(b.len(), &mut |s| {
                     for mode in [PollMode::Keep, PollMode::Recreate] {
                         c05_run(c, fam, b, &base, s, mode);
+                    }
+                    // state cloned at each of the first Pendings, original finished, clone resumed
+                    let npend = s.iter().filter(|x| **x == Step::Pending).count();
+                    for at in 0..npend.min(3) {
+                        c05_clone_resume_at(c, fam, b, &base, s, at);
                     }
                     nsched += 1;
                 });
@@ -831,11 +840,17 @@ pub fn c14_packet(c: &mut Ctx, r: &mut Rng, fam: Fam, rp: &RP, case: &Case) {
                     ),
                 }
             };
+            // a quarter of the runs deliver the bytes before the fault in chunks with Pendings
+            let sched: Vec<Step> = if r.chance(1, 4) { wl::rand_schedule(r, enc.len(), hdr) } else { Vec::new() };
+            let chunked = !sched.is_empty();
+            if chunked {
+                c.count("read-faults-under-chunked-delivery");
+            }
             // async
             {
-                let mut rd = ScriptedReader::ready(&enc).with_fault(p, fault);
+                let mut rd = ScriptedReader::new(&enc, &sched).with_fault(p, fault);
                 rd.keep_log = false;
-                match guard(|| dec_async(fam, &mut rd, enc.len() + 16)) {
+                match guard(|| dec_async(fam, &mut rd, enc.len() * 2 + sched.len() + 16)) {
                     Ok(Drive::Done(res)) => {
                         let fired = rd.fault_fired;
                         judge(c, "async", res, fired)
@@ -846,9 +861,10 @@ pub fn c14_packet(c: &mut Ctx, r: &mut Rng, fam: Fam, rp: &RP, case: &Case) {
             }
             // poll
             {
-                let mut rd = ScriptedReader::ready(&enc).with_fault(p, fault);
+                let mut rd = ScriptedReader::new(&enc, &sched).with_fault(p, fault);
                 rd.keep_log = false;
-                match guard(|| drive_poll(fam, &mut rd, PollMode::Keep, enc.len() + 16)) {
+                let mode = if chunked { PollMode::Recreate } else { PollMode::Keep };
+                match guard(|| drive_poll(fam, &mut rd, mode, enc.len() * 2 + sched.len() + 16)) {
                     Ok(run) => match run.out {
                         Drive::Done(res) => {
                             let fired = rd.fault_fired;
@@ -1017,15 +1033,18 @@ pub fn c14(ctx: &mut Ctx, layer: &str) {
         "miri" => {
             sz.g1 = if ctx.thorough { 200 } else { 16 };
             sz.g3 = vec![];
+            sz.g3p = vec![];
         }
         "vg" => {
             sz.g1 = 60;
             sz.g3 = vec![];
+            sz.g3p = vec![];
         }
         _ => {
             sz.g1 = if ctx.thorough { 100_000 } else { 8_000 };
             sz.g2_cap = if ctx.thorough { 512 } else { 48 };
             sz.g3 = vec![127, 128, 16_383, 16_384];
+            sz.g3p = vec![127, 128];
         }
     }
     crate::mon::valid::for_valid(ctx, &sz, c14_packet);
